@@ -2074,3 +2074,345 @@ func H_C01_disabledInMapped(static int) {
 	verifCover("outputs with disabled elements resolved")
 	verifAssert(verifBytesEq(vrEncode(outs), want), "C01: per element, the top-level output holds the result of the call, or null where the call was disabled")
 }
+
+const vrSibSrc = `
+stage FLAG(
+    out bool flag,
+    src comp "flag",
+)
+
+stage WORK(
+    in  int x,
+    out int y,
+    src comp "work",
+)
+
+stage USE(
+    in  int a,
+    in  int b,
+    out int r,
+    src comp "use",
+)
+
+pipeline LEVEL3(
+    in  int  x,
+    in  bool skip_a,
+    in  bool skip_b,
+    out int  a,
+    out int  b,
+)
+{
+    call WORK as A(
+        x = self.x,
+    ) using (
+        disabled = self.skip_a,
+    )
+
+    call WORK as B(
+        x = self.x,
+    ) using (
+        disabled = self.skip_b,
+    )
+
+    return (
+        a = A.y,
+        b = B.y,
+    )
+}
+
+pipeline LEVEL2(
+    in  int  x,
+    in  bool skip3,
+    in  bool skip_a,
+    in  bool skip_b,
+    out int  a,
+    out int  b,
+)
+{
+    call LEVEL3(
+        x      = self.x,
+        skip_a = self.skip_a,
+        skip_b = self.skip_b,
+    ) using (
+        disabled = self.skip3,
+    )
+
+    return (
+        a = LEVEL3.a,
+        b = LEVEL3.b,
+    )
+}
+
+pipeline LEVEL1(
+    in  int  x,
+    in  bool skip2,
+    in  bool skip3,
+    in  bool skip_a,
+    in  bool skip_b,
+    out int  a,
+    out int  b,
+)
+{
+    call LEVEL2(
+        x      = self.x,
+        skip3  = self.skip3,
+        skip_a = self.skip_a,
+        skip_b = self.skip_b,
+    ) using (
+        disabled = self.skip2,
+    )
+
+    return (
+        a = LEVEL2.a,
+        b = LEVEL2.b,
+    )
+}
+
+pipeline TOP(
+    in  int x,
+    out int a,
+    out int b,
+    out int r,
+)
+{
+    call FLAG as SKIP1()
+    call FLAG as SKIP2()
+    call FLAG as SKIP3()
+    call FLAG as SKIP_A()
+    call FLAG as SKIP_B()
+
+    call LEVEL1(
+        x      = self.x,
+        skip2  = SKIP2.flag,
+        skip3  = SKIP3.flag,
+        skip_a = SKIP_A.flag,
+        skip_b = SKIP_B.flag,
+    ) using (
+        disabled = SKIP1.flag,
+    )
+
+    call USE(
+        a = LEVEL1.a,
+        b = LEVEL1.b,
+    )
+
+    return (
+        a = LEVEL1.a,
+        b = LEVEL1.b,
+        r = USE.r,
+    )
+}
+
+call TOP(
+    x = 7,
+)
+`
+
+type vrSib struct {
+	ps    *Pipestance
+	flags [5]*Node
+	a, b  *Node
+	use   *Node
+}
+
+func vrSibGraph() *vrSib {
+	disableUniquification = false
+	return verifCached("vrSibGraph", func() any {
+		rt := &Runtime{Config: &RuntimeOptions{JobMode: "local", VdrMode: VdrDisable}, mrjob: "/m/mrjob", adaptersPath: "/m/adapters"}
+		_, _, ps, err := rt.instantiatePipeline([]byte(vrSibSrc), "/m/p.mro", "ps", "/ps", nil, "none", nil, false, true, context.Background())
+		if err != nil {
+			panic("fixture does not instantiate: " + err.Error())
+		}
+		n := func(name string) *Node { return ps.node.top.allNodes["ID.ps.TOP."+name] }
+		return &vrSib{ps, [5]*Node{n("SKIP1"), n("SKIP2"), n("SKIP3"), n("SKIP_A"), n("SKIP_B")},
+			n("LEVEL1.LEVEL2.LEVEL3.A"), n("LEVEL1.LEVEL2.LEVEL3.B"), n("USE")}
+	}).(*vrSib)
+}
+
+// H_C01_disabledSiblings: two calls A and B of one stage sit below three nested
+// sub-pipelines, each disabled by its own run-time flag, and each of A and B
+// has a run-time flag of its own; all five flags are arbitrary.
+//
+//	C03: A is disabled exactly when one of the three enclosing flags or its own
+//	     flag is true - never because of its sibling's flag - and likewise B.
+//	C01: the consumer and the top-level outputs receive each call's result, or
+//	     null where the call was disabled.
+func H_C01_disabledSiblings() {
+	w := vrSibGraph()
+	vrOuts = map[*Metadata]LazyArgumentMap{}
+	var fl [5]bool
+	for i, n := range w.flags {
+		fl[i] = verifBool("flag")
+		v := "false"
+		if fl[i] {
+			v = "true"
+		}
+		vrOuts[n.forks[0].metadata] = LazyArgumentMap{"flag": json.RawMessage(v)}
+	}
+	outer := fl[0] || fl[1] || fl[2]
+	want := [2]bool{outer || fl[3], outer || fl[4]}
+	var res [2]json.RawMessage
+	for i, n := range []*Node{w.a, w.b} {
+		f := n.forks[0]
+		dis, err := f.disabled()
+		verifAssert(err == nil, "C03: the disabling conditions of a call nested in disabled pipelines resolve")
+		verifAssert(dis == want[i], "C03: a call is disabled exactly when its own condition or that of an enclosing pipeline holds")
+		if !dis {
+			_, args, err := n.resolveInputs(f.forkId, false)
+			verifAssert(err == nil, "C01: the inputs of an enabled call resolve")
+			if err == nil {
+				verifAssert(verifBytesEq(vrEncode(args), []byte(`{"x":7}`)), "C01: the nested call receives the top-level input")
+			}
+			res[i] = vrDigit("work result")
+			vrOuts[f.metadata] = LazyArgumentMap{"y": res[i]}
+		}
+		if want[i] {
+			res[i] = json.RawMessage("null")
+		}
+	}
+	verifCover("sibling calls below three disabled pipelines resolved")
+	_, args, err := w.use.resolveInputs(w.use.forks[0].forkId, false)
+	verifAssert(err == nil, "C01: the consumer's inputs resolve")
+	if err != nil {
+		return
+	}
+	wantArgs := vrCat([]byte(`{"a":`), res[0], []byte(`,"b":`), res[1], []byte(`}`))
+	verifAssert(verifBytesEq(vrEncode(args), wantArgs), "C01: the consumer receives each call's result, or null where the call was disabled")
+	r := vrDigit("use result")
+	vrOuts[w.use.forks[0].metadata] = LazyArgumentMap{"r": r}
+	outs, _, err := w.ps.node.resolvePipelineOutputs(nil)
+	verifAssert(err == nil && outs != nil, "C01: the pipeline's outputs resolve")
+	if err != nil || outs == nil {
+		return
+	}
+	wantOuts := vrCat([]byte(`{"a":`), res[0], []byte(`,"b":`), res[1], []byte(`,"r":`), r, []byte(`}`))
+	verifCover("outputs below disabled pipelines resolved")
+	verifAssert(verifBytesEq(vrEncode(outs), wantOuts), "C01: the top-level outputs hold each call's result, or null where the call was disabled")
+}
+
+const vrConstSrc = `
+stage MAKE(
+    out int[] list,
+    src comp  "s",
+)
+
+stage S(
+    in  int x,
+    out int y,
+    src comp "s",
+)
+
+stage USE(
+    in  int[] ys,
+    out int   r,
+    src comp  "u",
+)
+
+pipeline P(
+    in  int x,
+    in  int k,
+    out int y,
+    out int z,
+)
+{
+    call S(
+        x = self.x,
+    )
+
+    return (
+        y = self.k,
+        z = S.y,
+    )
+}
+
+pipeline TOP(
+    out int   r,
+    out int[] ys,
+)
+{
+    call MAKE()
+
+    map call P(
+        x = split MAKE.list,
+        k = 5,
+    )
+
+    call USE(
+        ys = P.y,
+    )
+
+    return (
+        r  = USE.r,
+        ys = P.y,
+    )
+}
+
+call TOP()
+`
+
+func vrConstGraph() *vrReal {
+	disableUniquification = false
+	return verifCached("vrConstGraph", func() any {
+		rt := &Runtime{Config: &RuntimeOptions{JobMode: "local", VdrMode: VdrDisable}, mrjob: "/m/mrjob", adaptersPath: "/m/adapters"}
+		_, _, ps, err := rt.instantiatePipeline([]byte(vrConstSrc), "/m/p.mro", "ps", "/ps", nil, "none", nil, false, true, context.Background())
+		if err != nil {
+			panic("fixture does not instantiate: " + err.Error())
+		}
+		n := func(name string) *Node { return ps.node.top.allNodes["ID.ps.TOP."+name] }
+		return &vrReal{ps, n("MAKE"), n("P.S"), n("USE")}
+	}).(*vrReal)
+}
+
+// H_C01_constFromMapped(n): a pipeline mapped over an array of n elements a
+// stage produced returns, beside a stage output, a constant it was given; a
+// consumer binds the collected constants.
+//
+//	C02: the consumer waits for the stage which determines how many there are.
+//	C01: it receives the constant once per element (null or an empty array for
+//	     none), and so does the top-level output.
+func H_C01_constFromMapped(n int) {
+	w := vrConstGraph()
+	use := w.sum
+	vrOuts = map[*Metadata]LazyArgumentMap{}
+	_, waits := use.prenodes[w.gen.GetFQName()]
+	verifCover("consumer of a constant collected from a mapped call")
+	verifAssert(waits, "C01/C02: a consumer of values collected from a mapped call waits for the stage which determines their number")
+	xs := make([]json.RawMessage, n)
+	ks := make([]json.RawMessage, n)
+	for i := range xs {
+		xs[i] = vrDigit("element")
+		ks[i] = json.RawMessage("5")
+	}
+	vrOuts[w.gen.forks[0].metadata] = LazyArgumentMap{"list": vrArray(xs)}
+	w.work.expandForks(true)
+	verifAssert(len(w.work.forks) == n || (n == 0 && len(w.work.forks) == 1), "C03: one fork per element")
+	for _, f := range w.work.forks {
+		vrOuts[f.metadata] = LazyArgumentMap{"y": vrDigit("work result")}
+	}
+	_, args, err := use.resolveInputs(use.forks[0].forkId, false)
+	verifAssert(err == nil, "C01: the consumer's inputs resolve")
+	if err != nil {
+		return
+	}
+	got := vrEncode(args)
+	want := vrCat([]byte(`{"ys":`), vrArray(ks), []byte(`}`))
+	ok := verifBytesEq(got, want)
+	if n == 0 {
+		ok = ok || verifBytesEq(got, []byte(`{"ys":null}`))
+	}
+	verifAssert(ok, "C01: the consumer receives the constant once per element of the mapped collection")
+	r := vrDigit("use result")
+	vrOuts[use.forks[0].metadata] = LazyArgumentMap{"r": r}
+	outs, _, err := w.ps.node.resolvePipelineOutputs(nil)
+	verifAssert(err == nil && outs != nil, "C01: the pipeline's outputs resolve")
+	if err != nil || outs == nil {
+		return
+	}
+	gotO := vrEncode(outs)
+	okO := verifBytesEq(gotO, vrCat([]byte(`{"r":`), r, []byte(`,"ys":`), vrArray(ks), []byte(`}`)))
+	if n == 0 {
+		okO = okO || verifBytesEq(gotO, vrCat([]byte(`{"r":`), r, []byte(`,"ys":null}`)))
+	}
+	verifCover("constant outputs of a mapped call resolved")
+	verifAssert(okO, "C01: the top-level output holds the constant once per element")
+}
